@@ -743,3 +743,13 @@ func Rd[T any](p *T, site uint32) T { Access(unsafe.Pointer(p), false, site); re
 
 // W records a write of *p (called right after the write, before any scheduling point).
 func W[T any](p *T, site uint32) { Access(unsafe.Pointer(p), true, site) }
+
+// AppendSlot is wrapped around the first argument of append: when the appended element fits into the capacity
+// of s, append writes it in place, behind s; that write is recorded (an append that reallocates writes only
+// memory nobody else can see). It returns s unchanged.
+func AppendSlot[T any](s []T, site uint32) []T {
+	if cap(s) > len(s) && unsafe.Sizeof(*new(T)) > 0 {
+		Access(unsafe.Pointer(&s[:len(s)+1][len(s)]), true, site)
+	}
+	return s
+}
